@@ -28,6 +28,9 @@ CHECKS["C15"] = {
                     "concurrent half explores interleavings at the injected points only (DESIGN.md 4.4)"],
     "units": [
         {"pkg": "internal/queue", "run": "^TestVerif_C15_Seq", Q: {"timeout": 300}, T: {"timeout": 1500, "shards": 8}},
+        {"pkg": "internal/queue", "run": "^TestVerif_C15_Conc", "inst": ["internal/queue/simple.go", "internal/queue/priority.go"],
+         Q: {"timeout": 300}, T: {"timeout": 3000, "shards": 11}},
     ],
-    "mandatory_labels": {"all": ["seq-simple/wait-nonempty", "seq-priority/ties", "seq-priority/nextall"]},
+    "mandatory_labels": {"all": ["seq-simple/wait-nonempty", "seq-priority/ties", "seq-priority/nextall",
+                                 "conc/schedules", "conc/add-between-unlock-and-select", "conc/with-cancel"]},
 }
